@@ -1150,6 +1150,43 @@ example : (addChops T0 2 [] [(1 / 2, { count := some 8 }, { start := some (1 / 1
       (1 / 2, {}, { count := some 4, c2c := some 2 })]).toOption.map (fun sp => (sp.map (·.count), gradingCount sp)) =
     some ([8, 4], 12) := by decide +kernel
 
+
+/-- Sections that are all uniform (every total expansion exactly 1) are still *reversed* by `Grading.inverted`: the
+    result is the list of divisions in reverse order, unchanged otherwise — so it equals the original only for a
+    palindromic grading (one section, or mirror-symmetric ratios and counts), never "because uniform cells look the
+    same from both ends". -/
+theorem T_C03_invert_uniform_sections {spec : List Division} (h : ∀ d ∈ spec, d.total = 1) :
+    inverted spec = .ok spec.reverse ∧ (inverted spec = .ok spec ↔ spec.reverse = spec) := by
+  have h0 : spec.any (fun d => decide (d.total = 0)) = false := by
+    rw [List.any_eq_false]
+    intro d hd
+    simp [h d hd]
+  have hmap : spec.reverse.map (fun d => { d with total := 1 / d.total }) = spec.reverse := by
+    conv_rhs => rw [← List.map_id spec.reverse]
+    apply List.map_congr_left
+    intro d hd
+    rw [List.mem_reverse] at hd
+    cases d with
+    | mk r n T =>
+      have : T = 1 := h _ hd
+      subst this
+      simp
+  have hinv : inverted spec = .ok spec.reverse := by
+    unfold inverted
+    rw [h0]
+    simp only [Bool.false_eq_true, if_false, pure, Except.pure]
+    rw [hmap]
+  refine ⟨hinv, ?_⟩
+  rw [hinv]
+  constructor
+  · intro hh; exact Except.ok.inj hh
+  · intro hh; rw [hh]
+
+example : inverted [⟨1 / 4, 5, 1⟩, ⟨3 / 4, 3, 1⟩] = .ok [⟨3 / 4, 3, 1⟩, ⟨1 / 4, 5, 1⟩] ∧
+    inverted [⟨1 / 4, 5, 1⟩, ⟨3 / 4, 3, 1⟩] ≠ .ok [⟨1 / 4, 5, 1⟩, ⟨3 / 4, 3, 1⟩] :=
+  ⟨(T_C03_invert_uniform_sections (by decide)).1,
+   fun hh => absurd ((T_C03_invert_uniform_sections (by decide)).2.mp hh) (by decide +kernel)⟩
+
 /-! ### 8. the bodies of the relations, translated from the source text at every run
 
 `cbv/tables/c03.py` turns (Python `ast`) the body of every `get_*` relation — validator calls, guards with their
@@ -1157,18 +1194,31 @@ comparison operators and constants, branch order, every arithmetic expression, t
 `**` / `brentq` calls with their operands — into a prefix token list (`CBV.Gen.c03RelBodies`).  `relBodies` are the same
 bodies as trees of the model (`Stmt`), `run` is their semantics over exact rationals. -/
 
-/-- The trees the model holds are the source: their token encoding is the generated table, relation by relation in
-    the order of the relation table (and likewise the bodies of the four simple validators). -/
+/-- The trees the model holds are the source: the token encoding of each is the generated table of that relation (one
+    statement per relation; locals are compared up to renaming, comments / docstrings / annotations are not tokens). -/
+theorem T_C03_translated_source_c2c_count_end : encBody body_c2c_count_end = CBV.Gen.c03Body_c2c_expansion__count__end_size := body_c2c_count_end_source
+theorem T_C03_translated_source_c2c_count_start : encBody body_c2c_count_start = CBV.Gen.c03Body_c2c_expansion__count__start_size := body_c2c_count_start_source
+theorem T_C03_translated_source_c2c_count_total : encBody body_c2c_count_total = CBV.Gen.c03Body_c2c_expansion__count__total_expansion := body_c2c_count_total_source
+theorem T_C03_translated_source_count_end_c2c : encBody body_count_end_c2c = CBV.Gen.c03Body_count__end_size__c2c_expansion := body_count_end_c2c_source
+theorem T_C03_translated_source_count_start_c2c : encBody body_count_start_c2c = CBV.Gen.c03Body_count__start_size__c2c_expansion := body_count_start_c2c_source
+theorem T_C03_translated_source_count_total_c2c : encBody body_count_total_c2c = CBV.Gen.c03Body_count__total_expansion__c2c_expansion := body_count_total_c2c_source
+theorem T_C03_translated_source_count_total_start : encBody body_count_total_start = CBV.Gen.c03Body_count__total_expansion__start_size := body_count_total_start_source
+theorem T_C03_translated_source_end_start_total : encBody body_end_start_total = CBV.Gen.c03Body_end_size__start_size__total_expansion := body_end_start_total_source
+theorem T_C03_translated_source_start_count_c2c : encBody body_start_count_c2c = CBV.Gen.c03Body_start_size__count__c2c_expansion := body_start_count_c2c_source
+theorem T_C03_translated_source_start_end_total : encBody body_start_end_total = CBV.Gen.c03Body_start_size__end_size__total_expansion := body_start_end_total_source
+theorem T_C03_translated_source_total_count_c2c : encBody body_total_count_c2c = CBV.Gen.c03Body_total_expansion__count__c2c_expansion := body_total_count_c2c_source
+theorem T_C03_translated_source_total_start_end : encBody body_total_start_end = CBV.Gen.c03Body_total_expansion__start_size__end_size := body_total_start_end_source
+
+/-- every relation of the relation table has its tree, in table order; the bodies of the four simple validators -/
 theorem T_C03_translated_source :
-    relBodiesEnc = CBV.Gen.c03RelBodies ∧ relTable = some (relBodies.map (·.1)) ∧
-      validatorBodiesEnc = CBV.Gen.c03ValidatorBodies :=
-  ⟨relBodies_source, by decide, validatorBodies_source⟩
+    relTable = some (relBodies.map (·.1)) ∧ validatorBodiesEnc = CBV.Gen.c03ValidatorBodies :=
+  ⟨by decide, validatorBodies_source⟩
 
 /-- the bodies of `_validate_length`, `_validate_start_end_size`, `_validate_c2c_expansion`,
     `_validate_total_expansion` reject exactly `<= 0`, `<= 0`, `== 0`, `== 0` — what `validateSem` (the meaning of a
     validator call inside `run`) and the guards of the model functions implement -/
 theorem T_C03_translated_validators (P : Prims) (q : ℚ) :
-    validatorBodies.map (fun p => (p.1, run P (p.2.1.map (fun x => (x, LVal.num q))) (p.2.2 ++ [.ret (.lit 0)]))) =
+    validatorBodies.map (fun p => (p.1, run P [("v0", LVal.num q), ("v1", LVal.num q)] (p.2.2 ++ [.ret (.lit 0)]))) =
       [("_validate_length", if q ≤ 0 then .error .value else .ok 0),
        ("_validate_start_end_size", if q ≤ 0 then .error .value else .ok 0),
        ("_validate_c2c_expansion", if q = 0 then .error .value else .ok 0),
